@@ -48,6 +48,7 @@ type faultStream struct {
 	blocked   map[wkey]chan error
 	arrived   chan wkey
 	written   [][]byte
+	closeErr  bool // Close reports an error (a TLS connection whose closing alert cannot be written any more)
 }
 
 func newFaultStream() *faultStream {
@@ -133,6 +134,9 @@ func (s *faultStream) Close() error {
 	if !s.closed {
 		s.closed = true
 		close(s.closeCh)
+		if s.closeErr {
+			return errors.New("close: broken pipe")
+		}
 	}
 	return nil
 }
@@ -445,6 +449,12 @@ func execCl(op string) func(a []string) string {
 			w.lost = true
 			w.settleLoss()
 			return "ok"
+		case "closeerr":
+			// from now on the stream's Close reports an error (and closes all the same)
+			w.st.mu.Lock()
+			w.st.closeErr = true
+			w.st.mu.Unlock()
+			return "ok"
 		case "close":
 			w.ep.Close()
 			w.lost = true
@@ -698,7 +708,7 @@ func clStorm(a []string) string {
 }
 
 func init() {
-	for _, op := range []string{"subidle", "flood", "client", "replyid", "reset", "call", "wok", "wfail", "cancel", "reply", "event", "eventerr", "rfail", "close", "out", "peek", "sub", "ondisc", "final"} {
+	for _, op := range []string{"closeerr", "subidle", "flood", "client", "replyid", "reset", "call", "wok", "wfail", "cancel", "reply", "event", "eventerr", "rfail", "close", "out", "peek", "sub", "ondisc", "final"} {
 		executors["cl."+op] = execCl(op)
 	}
 	executors["cl.storm"] = func(a []string) string {
@@ -727,6 +737,10 @@ func runC11(r *Rand, tier string, o *Out) {
 	}
 	for s := 0; s < scripts; s++ {
 		o.Do("P", "cl.reset", false)
+		if r.Chance(25) {
+			o.Do("P", "cl.closeerr", true)
+			o.Count("stream:close-reports-an-error")
+		}
 		g := &clGen{}
 		steps := 6 + r.Intn(22)
 		faultAt := r.Intn(steps + 4) // position of the loss; beyond the end: no loss before the final close
